@@ -1,7 +1,92 @@
 import Lox.Drv.Common
-/-! Driver ops of the Table vertical: `handle op payload` answers one protocol line, `none` = unknown op. -/
-namespace Lox.Table
+import Lox.Table.Model
+import Lox.LR.Model
+/-! Driver ops of the Table vertical (protocol documented in /verif/harness/drv/ops_table.go).
 
-def handle (_op _payload : String) : Option String := none
+`table.build32  i : r r r ; i : r r ; …`   rows with their indices, elements in the `int32` range
+`table.buildu32 i : r r r ; …`             same, elements in the `uint32` range
+    answer: the array `Array()` returns (space separated), or `PANIC index must be monotonically increasing`
+`table.rowkey32 r r r` / `table.rowkeyu32 r r r`
+    answer: the bytes of `rowKey(row)` as integers
+`table.write32 x x x` / `table.writeu32 x x x`
+    answer: the text `WriteArray` emits, newline shown as `/`
+`table.rowat a a a … | i`      (model only) the row `_Find`/`PushRune` address at index `i`, or `oob`
+`table.find a a a … | y x`     (model only) `_Find(table, y, x)`: `hit v`, `miss` or `oob`
+`table.lexrow r r r …`         (model only) `decodeLexRow`: `flags | triples | pairs` or `bad`
+A value outside the element type's range answers `bad-value` on both sides. -/
+namespace Lox.Table
+open Lox.Drv
+
+def inI32 (x : Int) : Bool := -2147483648 ≤ x && x ≤ 2147483647
+def inU32 (x : Int) : Bool := 0 ≤ x && x ≤ 4294967295
+
+/-- `i : r r r` -/
+def parseRow (s : String) : Option (Int × List Int) :=
+  match s.splitOn ":" with
+  | [i, r] => do
+    let i ← parseInts i
+    let r ← parseInts r
+    match i with
+    | [i] => some (i, r)
+    | _ => none
+  | _ => none
+
+def parseRows (s : String) : Option (List (Int × List Int)) :=
+  ((s.splitOn ";").filter (fun x => x.trimAscii.toString ≠ "")).mapM parseRow
+
+def panicMsg : String := "PANIC index must be monotonically increasing"
+
+def handleBuild (unsigned : Bool) (payload : String) : Option String := do
+  let rows ← parseRows payload
+  let ok := rows.all fun (_, r) => r.all (if unsigned then inU32 else inI32)
+  if !ok then some "bad-value" else
+  match buildI rows with
+  | none => some panicMsg
+  | some a => some (showInts (if unsigned then a.map castU32 else a))
+
+def handleRowKey (unsigned : Bool) (payload : String) : Option String := do
+  let r ← parseInts payload
+  if !(r.all (if unsigned then inU32 else inI32)) then some "bad-value" else
+  some (showNats (rowKeyBytes r))
+
+def handleWrite (unsigned : Bool) (payload : String) : Option String := do
+  let r ← parseInts payload
+  if !(r.all (if unsigned then inU32 else inI32)) then some "bad-value" else
+  some ((writeArray r).replace "\n" "/")
+
+def handle (op payload : String) : Option String :=
+  match op with
+  | "table.build32" => handleBuild false payload
+  | "table.buildu32" => handleBuild true payload
+  | "table.rowkey32" => handleRowKey false payload
+  | "table.rowkeyu32" => handleRowKey true payload
+  | "table.write32" => handleWrite false payload
+  | "table.writeu32" => handleWrite true payload
+  | "table.rowat" =>
+    match payload.splitOn "|" with
+    | [a, i] => do
+      let a ← parseInts a
+      match ← parseNats i with
+      | [i] => some (match rowAt a i with | some r => "row " ++ showInts r | none => "oob")
+      | _ => none
+    | _ => none
+  | "table.find" =>
+    match payload.splitOn "|" with
+    | [a, yx] => do
+      let a ← parseInts a
+      match ← parseInts yx with
+      | [y, x] => some (match Lox.LR.find a.toArray y x with
+          | .hit v => "hit " ++ toString v
+          | .miss => "miss"
+          | .oob => "oob")
+      | _ => none
+    | _ => none
+  | "table.lexrow" => do
+    let r ← parseInts payload
+    match decodeLexRow r with
+    | none => some "bad"
+    | some (f, ts, ps) =>
+      some (toString f ++ " | " ++ showInts (flattenTriples ts) ++ " | " ++ showInts (flattenPairs ps))
+  | _ => none
 
 end Lox.Table
